@@ -16,6 +16,18 @@ PAT_NOTE = ("Trusted: Lean kernel + standard axioms; the pattern model (lean/Iso
             "unmodelled in the evidence; floats are exact rationals in the model (dyadic inputs or tolerance 1e-9 in the comparison).")
 
 CHECKS = {
+    "C15": dict(
+        text="Theorems over Rat for ALL control-point lists, segment lengths (incl. 0), counts and run lengths, easing f a parameter "
+             "(identity proved an easing; cosine assumed f 0 = 0, f 1 = 1, 0 <= f <= 1): the model equals the closed-form reference "
+             "trace; one message per tick from the first to the last control point; v_i + (v_next - v_i) * f(j/D_i) on its tick; control "
+             "points hit exactly on their own tick; values within the segment's hull; zero-duration jump; non-numeric fields pass "
+             "through; interpolating non-control events is rejected.",
+        design="DESIGN.md §3 C15, notes/NOTES-C15.md",
+        note="Trusted: Lean kernel + standard axioms; model lean/IsobarV/Interp/Model.lean tied to the interpolating branch of "
+             "Track.tick and PInterpolate by the correspondence (real Timeline at 10 PPQN values; ticks exact, values to 1e-9, integer "
+             "end points exactly) and an exact-rational closed-form oracle in the harness; libm cos is used by the driver for number "
+             "output only and is a parameter of the theorems.",
+        technique="Lean 4 theorems over Rat (model = closed-form reference, induction over segments) + exact closed-form oracle + differential correspondence"),
     "C14": dict(
         text="Theorems, unbounded in rates, run lengths, wake-up sequences, message sequences: the multiplier accepts iff one rate divides "
              "the other, after n input ticks exactly the ratio-determined number of output ticks (n*m, ceil(n/d)), evenly spaced, phase "
